@@ -21,6 +21,12 @@ use std::collections::BTreeMap;
 use std::sync::Mutex;
 use zkryptium::verif_hooks;
 
+/// run a closure on a fresh thread (empty thread-local state): decisions must not depend
+/// on what the calling thread did before
+pub fn fresh<T: Send>(f: impl FnOnce() -> T + Send) -> T {
+    std::thread::scope(|s| s.spawn(f).join().expect("fresh thread"))
+}
+
 pub fn prg(seed: u64, label: &str, a: u64, b: u64, len: usize) -> Vec<u8> {
     let mut out = Vec::with_capacity(len + 32);
     let mut ctr = 0u64;
@@ -245,7 +251,14 @@ impl<'a> Ctx<'a> {
         let mut ranges = Vec::new();
         for (fi, f) in fields.as_array().unwrap().iter().enumerate() {
             let code = f.as_u64().unwrap() as usize;
-            if code > 100 {
+            if code > 200 {
+                let j = code - 201; // 0-based point replaced by the identity encoding
+                assert!(j < npts);
+                let mut id = [0u8; 48];
+                id[0] = 0xc0;
+                v[48 * j..48 * (j + 1)].copy_from_slice(&id);
+                // no bit-flip sweep for this class: the point is exactly the identity
+            } else if code > 100 {
                 let j = code - 101; // 0-based point
                 assert!(j < npts);
                 v[48 * j..48 * (j + 1)].copy_from_slice(&self.random_point(fi as u64 + 1));
@@ -390,6 +403,8 @@ impl<'a> Ctx<'a> {
                 let got = run(&bytes);
                 let prop = prop_of(op, exp, cross);
                 self.decide(prop, i, op, exp, &got, json!({"sig": hex::encode(&bytes)}));
+                let got2 = fresh(|| run(&bytes));
+                self.decide(prop, i, &format!("{op} (fresh thread)"), exp, &got2, json!({"sig": hex::encode(&bytes)}));
                 // the reference's own decision (C10)
                 let rdec = match (r.sig_decode(&bytes), g2_from(&pk)) {
                     (Ok(sig), Some(pkp)) => {
@@ -549,6 +564,8 @@ impl<'a> Ctx<'a> {
                 if let Some(bytes) = &bytes {
                     let got = run(bytes);
                     self.decide(prop, i, op, exp, &got, json!({"proof": hex::encode(bytes)}));
+                    let got2 = fresh(|| run(bytes));
+                    self.decide(prop, i, &format!("{op} (fresh thread)"), exp, &got2, json!({"proof": hex::encode(bytes)}));
                     let rdec = match (r.proof_decode(bytes), g2_from(&pk)) {
                         (Ok(p), Some(pkp)) => {
                             if blind_if {
@@ -641,6 +658,8 @@ impl<'a> Ctx<'a> {
                 let size = canonv(&msgs).len() + cbytes.as_ref().map(|b| b.len() / 32).unwrap_or(0) + 2;
                 let got = lib::blind_sign(s, &sk, &pk, &cbytes, &hdr, &msgs, Some(4 * size + 16));
                 let okd = self.decide(prop, i, op, exp, &got, json!({"commit": cbytes.as_ref().map(hex::encode)}));
+                let got2 = fresh(|| lib::blind_sign(s, &sk, &pk, &cbytes, &hdr, &msgs, Some(4 * size + 16)));
+                self.decide(prop, i, "BlindSign (fresh thread)", exp, &got2, json!({"commit": cbytes.as_ref().map(hex::encode)}));
                 if let Some((orig, ranges)) = tamper {
                     if exp == "Err" {
                         for f in self.flips(&orig, &ranges) {
